@@ -249,11 +249,19 @@ func (stream *DataStreamReader) Next() (res *Record, offset uint32, sizeBroken u
 	wrec.rec.Key = make([]byte, wrec.ksz)
 	if _, err = io.ReadFull(stream.rbuf, wrec.rec.Key); err != nil {
 		logger.Errorf(err.Error())
+		if err == io.EOF || err == io.ErrUnexpectedEOF {
+			// the sizes claim more than the file holds (damaged header or torn tail):
+			// broken like a bad crc, intact records may follow
+			return stream.nextValid()
+		}
 		return
 	}
 	wrec.rec.Payload.Body = stream.maxBodyBuf[:wrec.vsz]
 	if _, err = io.ReadFull(stream.rbuf, wrec.rec.Payload.Body); err != nil {
 		logger.Errorf(err.Error())
+		if err == io.EOF || err == io.ErrUnexpectedEOF {
+			return stream.nextValid()
+		}
 		return
 	}
 	recsizereal, recsize := wrec.rec.Sizes()
